@@ -37,11 +37,12 @@ def gen(run):
 def build_harness(run):
     if getattr(run, "c19_exe", None):
         return run.c19_exe
-    sync = cbuild.firmware_obj(run, "layer1/sync.c", "sync", extra_flags=cbuild.CONSOLE_FLAGS)
     gu = cbuild.libosmocore_obj(run, "gsm/gsm_utils.c", "gsm_utils", extra_flags=cbuild.CONSOLE_FLAGS)
     h = cbuild.obj(run, os.path.join(vf.ROOT, "harness/c/c19_harness.c"), "c19_harness",
                    includes=[cbuild.LIBOSMO_INC])
-    run.c19_exe = cbuild.link(run, [h, sync, gu, cbuild.console_sink(run)], "c19_harness.bin", ignore_unresolved=True)
+    # l1s_time_inc() wherever it lives in layer1/ (sync.c in the unchanged tree)
+    sync_objs = cbuild.firmware_objs_for(run, "layer1/sync.c", ["l1s_time_inc"], "sync", extra_flags=cbuild.CONSOLE_FLAGS)
+    run.c19_exe = cbuild.link(run, [h] + sync_objs + [gu, cbuild.console_sink(run)], "c19_harness.bin", ignore_unresolved=True)
     return run.c19_exe
 
 
